@@ -35,8 +35,8 @@ macro "bool_tie" : tactic => `(tactic| (
     (try simp only [Bool.and_eq_true, Bool.or_eq_true, Bool.not_eq_true', Bool.not_eq_eq_eq_not, decide_eq_true_eq,
       decide_eq_false_iff_not, Bool.true_eq_false, Bool.false_eq_true, ne_eq, true_iff, iff_true, false_iff, iff_false,
       true_and, and_true, false_and, and_false, true_or, or_true, false_or, or_false, not_true_eq_false,
-      not_false_eq_true]) <;>
-    omega)))
+      not_false_eq_true, eq_self] at *) <;>
+    first | omega | (simp_all <;> omega) | (simp_all; done))))
 
 theorem emod_le_self (a p : Int) (ha : 0 ≤ a) (hp : 0 < p) : a % p ≤ a := by
   have := Int.emod_def a p
